@@ -1,0 +1,44 @@
+//! Verification hooks. Only compiled with `--cfg helgoboss_midi_verif`; never part of a normal
+//! build.
+//!
+//! Provides a drop-in replacement for `std::time::Instant` whose reading is set by the test
+//! harness (per thread), so that simulations can contain explicit time steps.
+use core::time::Duration;
+use std::cell::Cell;
+
+thread_local! {
+    static NOW: Cell<Duration> = const { Cell::new(Duration::ZERO) };
+    static READS: Cell<u64> = const { Cell::new(0) };
+}
+
+/// Stand-in for `std::time::Instant`, driven by the harness.
+#[derive(Copy, Clone, Eq, PartialEq, Ord, PartialOrd, Hash, Debug)]
+pub struct Instant(Duration);
+
+impl Instant {
+    /// The current reading of this thread's simulated monotonic clock.
+    pub fn now() -> Instant {
+        READS.with(|r| r.set(r.get().wrapping_add(1)));
+        Instant(NOW.with(|n| n.get()))
+    }
+
+    /// Time elapsed since this instant (saturating, like `std`).
+    pub fn elapsed(&self) -> Duration {
+        Instant::now().0.saturating_sub(self.0)
+    }
+}
+
+/// Sets this thread's simulated clock.
+pub fn set_now(d: Duration) {
+    NOW.with(|n| n.set(d));
+}
+
+/// Reads this thread's simulated clock without counting as a clock read.
+pub fn now() -> Duration {
+    NOW.with(|n| n.get())
+}
+
+/// Number of times library code has read the simulated clock on this thread.
+pub fn clock_reads() -> u64 {
+    READS.with(|r| r.get())
+}
